@@ -52,6 +52,8 @@ type c07 struct {
 	seq        uint32
 	nMut       int64
 	part, parts int // quick: this instance sweeps the bases with index%parts == part (0 parts: all)
+	stuckWhat         string
+	stuck             bool  // the loop of this instance is blocked for good (a finding): nothing further can be swept here
 	sessMut, sessLive int64 // session-level mutants answered at all / answered other than "session context not found"
 }
 
@@ -282,9 +284,16 @@ func (c *c07) rebuild() {
 		c.hist = nil
 		c.sessUP = [2]uint64{}
 		c.hasTx = false
-		for _, e := range h {
+		for k, e := range h {
 			c.hist = append(c.hist, e)
-			c.prefix(e)
+			if o := c.prefix(e); o.State != "" && o.Alive && !o.Fatal {
+				// valid traffic (the re-association / establishments that restore the swept state) wedged the loop
+				// after the mutants sent so far: a finding, not a harness problem
+				c.stuck = true
+				c.stuckWhat = fmt.Sprintf("%s, replayed after %d mutants to restore the swept state (event %d of its history), left the event loop blocked: %s", e, c.nMut, k+1, o.State)
+				c.hist = h
+				return
+			}
 		}
 		if !c.w.Dead && c.exactly() {
 			return
@@ -356,6 +365,7 @@ func (c *c07) one(j *sworld.Judge, m mutant, baseName string, baseline *string) 
 		return true
 	}
 	if o.State != "" {
+		c.stuck = true
 		fail("stops-serving:"+site(), "the UPF stops serving after a datagram (%s of %s, %d octets: %s): %s", m.desc, baseName, len(raw), hexShort(raw), o.State)
 		return true
 	}
@@ -550,9 +560,18 @@ func (c *c07) sweep(j *sworld.Judge) int64 {
 					remapped++
 				}
 			}
-			if c.one(j, m, b.name, &baseline) || sinceRebuild >= 500 {
+			changed := c.one(j, m, b.name, &baseline)
+			if c.stuck {
+				// the event loop is blocked for good: reported; this instance (and its server) cannot be swept further
+				return c.nMut - start
+			}
+			if changed || sinceRebuild >= 500 {
 				sinceRebuild = 0
 				c.rebuild()
+				if c.stuck {
+					j.Fail("stops-serving:valid traffic after mutants", "the UPF stops serving: %s", c.stuckWhat)
+					return c.nMut - start
+				}
 				if !c.exactly() {
 					evid.Infra("C07: rebuilding the state by replaying its history gave a different state:\n%s\n---\n%s", baseline, c.state())
 				}
